@@ -43,8 +43,9 @@ def dist_case(draw):
             "field": draw(st.sampled_from(["tomo_id", "object_id", "class", "geom1"])),
             "metric": draw(st.sampled_from(["score", "score", "geom2"])), "keep_greater": draw(st.booleans()),
             "chains": draw(st.integers(0, 3)), "cols_seed": draw(st.integers(0, 10**6)),
-            "index": draw(st.sampled_from(["default", "default", "reversed", "strided"])),
+            "index": draw(st.sampled_from(["default", "default", "reversed", "strided", "repeated"])),
             "group_values": draw(st.lists(st.integers(1, 9), min_size=n_groups, max_size=n_groups, unique=True)),
+            "id_base": draw(st.sampled_from([0, 0, 0, 230100, 1000000])),  # date-coded / six-digit group numbers that differ by 1
             "int_coords": draw(st.integers(0, 5)) == 0,
             "near_pairs": draw(st.integers(0, 3)), "near_eps": draw(st.sampled_from([1e-6, 1e-5, 5e-5, 2e-4])),
             "origin": draw(st.sampled_from([0.0, 0.0, 1000.0, 2500.0]))}
@@ -58,7 +59,7 @@ def peak_case(draw):
         shape[i] = max(4, shape[i] // 2)
     order = draw(st.sampled_from(["zxz", "zxz", "zzx"]))
     return {"kind": "peaks", "seed": draw(st.integers(0, 2**31 - 1)), "shape": shape, "bumps": draw(st.integers(0, 4)),
-            "n_angles": draw(st.integers(1, 200)), "thr_mode": draw(st.sampled_from(["value", "sigma"])),
+            "n_angles": draw(st.integers(1, 200)), "thr_mode": draw(st.sampled_from(["value", "value", "sigma", "sigma", "zero"])),
             "top_fraction": draw(st.floats(0.002, 0.08, allow_nan=False)), "sigma": draw(st.floats(1.2, 3.0, allow_nan=False)),
             "diameter": draw(st.one_of(st.integers(1, 8).map(float), st.floats(1, 8, allow_nan=False))),
             "numbering": draw(st.integers(0, 1)), "order": order,
@@ -138,7 +139,7 @@ def build_distance(case):
     a[:, IX["tomo_id"]] = 1
     a[:, IX["object_id"]] = 1
     a[:, IX["class"]] = 1
-    gv = np.array(case["group_values"], float)
+    gv = np.array(case["group_values"], float) + case.get("id_base", 0)
     a[:, IX[case["field"]]] = gv[grp]
     a[:, IX[case["metric"]]] = scores
     if case["metric"] != "score":
@@ -268,7 +269,12 @@ def run_peaks(case, out):
     anglist = np.round(rng.uniform(-180, 180, (na, 3)), 3)  # rows are (phi, theta, psi)
     numbering = case["numbering"]
     amap = (rng.integers(0, na, shape) + numbering).astype(case["angles_dtype"])
-    if case["thr_mode"] == "value":
+    if case["thr_mode"] == "zero":
+        # a zero-mean style map cut at exactly 0 (a legal direct threshold like any other number)
+        scores = scores - float(np.quantile(scores, 1 - case["top_fraction"]))
+        thr = 0.0
+        kw = {"scores_threshold": 0.0}
+    elif case["thr_mode"] == "value":
         thr = float(np.quantile(scores, 1 - case["top_fraction"]))
         kw = {"scores_threshold": thr}
     else:
